@@ -15,6 +15,8 @@ Elements: integers as numbers, floats as the number of their IEEE bit pattern, b
 The data of a step keeps its own element type ("dt"); the model converts it (NdConv) or refuses the step.
 Every operation is executed through the definitions compiled from the Python source (Generated/DataSetShape.lean):
 dsAppend, dsSetItem, dsWriteDirect, dsGetItem, dsLen, dsSize, dsSetExtent, createRules.
+An ARR with "sp": "list" | "tuple" | "range" in a write / assign step is a Python sequence: h5py reads it with the
+array's element type (NumPy's cast, Pure/NdSeq.lean: stepSeqGen); elsewhere the source is the array NumPy reads.
 "dspell" (optional) is the dtype argument as the user spells it - "py:float", "np:double", "nix:Float", "dt:>i4"
 (np.dtype('>i4')), "s:f8" ('f8'); when present the model decides what it means (Pure/NdSpell.lean, createSpelled)
 and "dtype" is not looked at.  Other spelling keys of the harness ("sp", "shspell") do not change the meaning.
@@ -135,24 +137,31 @@ def spellingOfKey (key : String) : Option Spelling :=
   | [] => none
 
 inductive Cmd where
-  | step (s : TStep)
+  /-- `seq`: the source of a write / assignment is a Python sequence (list, tuple, range, scalar), which h5py
+  reads with the array's element type (`stepSeqGen`) -/
+  | step (s : TStep) (seq : Bool)
   | read (ix : IndexArg)
+
+/-- is the array literal spelled as a Python sequence? -/
+def isSeq (a : Json) : Bool :=
+  let sp := jStr (a.getObjValD "sp")
+  sp == "list" || sp == "tuple" || sp == "range"
 
 def arrOf (j : Json) : Option Arr := (arrOfJson j).map fun (dt, a) => ⟨dt, a⟩
 
 def cmdOfJson (j : Json) : Option Cmd :=
   match (jArr j).toList with
-  | [Json.str "write", a] => (arrOf a).map fun d => .step (.write d)
+  | [Json.str "write", a] => (arrOf a).map fun d => .step (.write d) (isSeq a)
   | [Json.str "assign", ix, a] => do
     let ix ← indexOfJson ix
     let d ← arrOf a
-    some (.step (.assign ix d))
+    some (.step (.assign ix d) (isSeq a))
   | [Json.str "append", a, ax] => do
     let d ← arrOf a
     let ax ← jInt? ax
-    some (.step (.append d ax))
-  | [Json.str "resize", e] => (intList? e).map fun e => .step (.resize e)
-  | [Json.str "reopen"] => some (.step .reopen)
+    some (.step (.append d ax) false)
+  | [Json.str "resize", e] => (intList? e).map fun e => .step (.resize e) false
+  | [Json.str "reopen"] => some (.step .reopen false)
   | [Json.str "read", ix] => (indexOfJson ix).map .read
   | _ => none
 
@@ -179,10 +188,11 @@ def runCmds (A : DArr) : List Cmd → List Json
     (match Nix.Gen.DataSet.dsGetItem A ix with
       | .ok R => Json.mkObj ([("r", Json.str "ok")] ++ arrJson R)
       | .error e => Json.mkObj [("r", Json.str e.toString)]) :: runCmds A rest
-  | .step s :: rest =>
-    match stepGen A s with
-    | (B, none) => observe "ok" B :: runCmds B rest
-    | (B, some e) => observe e.toString B :: runCmds B rest
+  | .step s seq :: rest =>
+    match (if seq then stepSeqGen A s else some (stepGen A s)) with
+    | some (B, none) => observe "ok" B :: runCmds B rest
+    | some (B, some e) => observe e.toString B :: runCmds B rest
+    | none => observe "outside-model" A :: runCmds A rest
 
 def handleCase (j : Json) : Option Json := do
   let fc ← comprOfName (jStr (j.getObjValD "fc"))
